@@ -6,6 +6,7 @@ import (
 	"io"
 	"net/http"
 	"net/http/httptest"
+	"runtime"
 	"strings"
 	"testing"
 
@@ -37,7 +38,10 @@ func TestExhaustiveFormatCompressionTable(t *testing.T) {
 		fOK := f == dsd.AUTO || isSerial(f)
 		for comp := compNone; comp < 256; comp++ {
 			cOK := comp == compNone || comp == dsd.AUTO || comp == dsd.GZIP
-			for _, v := range valuesFor(resolveSer(f)) {
+			for vi, v := range valuesFor(resolveSer(f)) {
+				if !(fOK && cOK) && vi > 0 {
+					break // one value is enough to see an unsupported combination refused
+				}
 				n++
 				if fOK && cOK {
 					checkRoundTrip(t, v, f, comp, "")
@@ -417,6 +421,36 @@ func TestRegDecompressAndLoadAuto(t *testing.T) {
 	}
 }
 
+// Loading a 6-byte MsgPack blob allocated memory in proportion to the
+// array32/map32 length the blob announces (here 2^20 elements; with
+// dfffffffff / ddffffffff the runtime aborts the process with "out of memory",
+// which no caller of Load can recover from). Untyped targets and typed slices.
+func TestRegMsgpackAnnouncedLengthAllocation(t *testing.T) {
+	for _, c := range []struct {
+		blob []byte
+		kind int
+	}{
+		{[]byte{dsd.MsgPack, 0xdf, 0x00, 0x10, 0x00, 0x00}, 1},
+		{[]byte{dsd.MsgPack, 0xdf, 0x00, 0x10, 0x00, 0x00}, 2},
+		{[]byte{dsd.MsgPack, 0xdd, 0x00, 0x10, 0x00, 0x00}, 1},
+		{[]byte{dsd.MsgPack, 0x81, 0xa3, 'I', 'n', 's', 0xdd, 0x00, 0x10, 0x00, 0x00}, 0},
+		{append([]byte{dsd.GZIP}, refGzip([]byte{dsd.MsgPack, 0xdd, 0x00, 0x10, 0x00, 0x00})...), 1},
+	} {
+		blob := c.blob
+		target, name := newTarget(c.kind)
+		var before, after runtime.MemStats
+		runtime.ReadMemStats(&before)
+		_, err := dsd.Load(blob, target)
+		runtime.ReadMemStats(&after)
+		if err == nil {
+			t.Fatalf("Load(%x) into %s succeeded", blob, name)
+		}
+		if grown := after.TotalAlloc - before.TotalAlloc; grown > 1<<20 {
+			t.Fatalf("Load(%x) into %s allocated %d bytes for a %d-byte blob before returning %q (with the announced length ffffffff the Go runtime aborts the process: allocation failure)", blob, name, grown, len(blob), err)
+		}
+	}
+}
+
 // ---------------------------------------------------------------- witnesses (open findings)
 
 // TestWitnessAcceptOWSBeforeSemicolon: RFC 7231 allows optional whitespace
@@ -449,3 +483,4 @@ func TestWitnessAcceptOWSBeforeSemicolon(t *testing.T) {
 		t.Fatalf("MimeLoad with Content-Type %q = (%s, %v)", "application/msgpack ; charset=binary", fmtName(f), err)
 	}
 }
+
